@@ -14,6 +14,7 @@ abbrev EName := Emboss.Enum.Name
 * `EVAL <s|u> <bits> <neg> <mag> <U> <LL> <m1>` → value of a parsed literal
 * `TYPE <maxbits> <signed>` → `_cpp_integer_type_for_enum`
 * `FIELD <s|u> <W> <bvt> <w> R <raw>` / `… W <v>` → `EnumView::Read` / `CouldWriteValue`
+* `FIELD <s|u> <W> <bvt> <w> T <n>` → `UpdateFromText` of the field with the decimal text of `n`
 -/
 
 def str (s : List Char) : Json := Json.str (String.ofList s)
@@ -58,7 +59,6 @@ def enumsJson (l : List (EName × Int)) : Json :=
 def showStr : Shown → String
   | .name n => "name " ++ String.ofList n
   | .number v => "num " ++ toString v
-  | .byte b => "byte " ++ toString b
 
 def handleEnum (j : Json) : Except String Json := do
   let d ← getDef j
@@ -67,7 +67,9 @@ def handleEnum (j : Json) : Except String Json := do
   let qv ← (← (← j.getObjVal? "q_values").getArr?).toList.mapM (·.getInt?)
   let front := d.frontAccepts
   let base : List (String × Json) :=
-    [("front", toJson front), ("max_bits", toJson d.maxBits), ("signed", toJson d.isSigned)]
+    [("front", toJson front), ("max_bits", toJson d.maxBits), ("signed", toJson d.isSigned),
+     ("attrs_verified", toJson d.attrsVerified), ("names_distinct", toJson d.namesDistinct),
+     ("back", toJson d.backAccepts)]
   if !front then
     return Json.mkObj base
   match generate d with
@@ -142,7 +144,14 @@ def handle (line : String) : String :=
   | ["FIELD", s, w, bvt, k, "W", v] =>
     match tyOf s w, bvt.toNat?, k.toNat?, v.toInt? with
     | some ty, some bvt, some k, some v =>
-      if viewCouldWrite ty bvt k v then "ok " ++ toString (viewWriteBits bvt k v) else "no"
+      if viewCouldWrite ty bvt k v then "ok " ++ toString (viewWriteBits ty bvt k v) else "no"
+    | _, _, _, _ => "bad-op"
+  | ["FIELD", s, w, bvt, k, "T", n] =>
+    match tyOf s w, bvt.toNat?, k.toNat?, n.toInt? with
+    | some ty, some bvt, some k, some n =>
+      match viewReadTextNumber ty bvt k n with
+      | some b => "ok " ++ toString b
+      | none => "no"
     | _, _, _, _ => "bad-op"
   | _ => "bad-op"
 
